@@ -143,6 +143,7 @@ REFUSALS = [
 def scenario(draw):
     base = draw(c09.case_strategy())
     base['negative'] = None
+    base['spread'] = False  # the crash-point scenarios copy one flat template directory
     base['inputs'] = base['inputs'][:4]
     if base['naming'] != 'explicit':
         pass
@@ -153,7 +154,7 @@ def _template(ctx, mc, TS):
     d = ctx.fresh_dir()
     t = d / 'template'
     t.mkdir()
-    bases, _ = c09._make_inputs(mc, t, TS)
+    bases, _ = c09._make_inputs(dict(mc, spread=False), t, TS)
     return d, t, [p.name for p in bases]
 
 
